@@ -28,6 +28,8 @@ def x_obligations(tier):
     for (s, epre, esuf, fixed) in ALL_CASES:
         o.append(Obl(f"C11-all[{s}]", M, "all_agree", env={"VF_SEARCH": s, "VF_EPRE": epre, "VF_ESUF": esuf, "VF_FIXED": fixed}, timeout=T, family="C11-all",
                      bound="FindInAll over constants + FindInPaths (glob stub)"))
+    o.append(Obl("C11-magic[h/a/x[c]]", M, "magic_name", env={"VF_EPRE": "h/a/", "VF_ESUF": ""}, timeout=T, family="C11-magic",
+                 bound="an existing entity named 'x[' + c + ']' (c any character) searched by its own Sid; expected to hit the known finding C11-glob-magic"))
     o.append(Obl("C11-reach", M, "reach", env={"VF_SEARCH": "h/a/*", "VF_EPRE": "h/a/", "VF_FIXED": "h/a/x/v1/m"}, timeout=150, expect="refute", family="C11-twin"))
     return o
 
